@@ -227,6 +227,88 @@ func genC14(e *emitter, tier string, seed int64) {
 		scripts := []scriptSrc{{"a.p", src}, {"b.p", "p(\"b\")\n"}, {"inf.p", "for ;; { for ;; {} }\n"}}
 		runAllK(scripts, pt, "endless", src, true)
 	}
+	// use() nested inside a larger expression: when the callee observes the signal it stops, but the
+	// caller's statement in progress goes on evaluating its remaining operands (known finding:
+	// every firing index is reported under one key)
+	for _, src := range []string{"x = [use(\"b3.p\"), p(\"after\")]\n", "p(use(\"b3.p\"), pr(\"after\"))\n"} {
+		scripts := []scriptSrc{{"a.p", src}, {"b3.p", "p(\"b1\")\np(\"b2\")\np(\"b3\")\n"}}
+		var fullTrace, fullOut any
+		full := emitMulti(e, scripts, "a.p", pt, 3000, true, "nested-use-full", src, nil)
+		if obs, _ := full["obs"].(map[string]any); obs != nil {
+			fullTrace, fullOut = obs["trace"], obs["stdout"]
+		}
+		for k := 1; k <= 6; k++ {
+			emitMulti(e, scripts, "a.p", pt, k, true, "nested-use", "c14:use-nested-in-expression",
+				map[string]any{"c14": true, "kfire": k, "full_trace": fullTrace, "full_stdout": fullOut})
+		}
+	}
+	// the v2 interpreter: endless loops, loops with continue/break and a visible loop clause, generated programs
+	v2AllK := func(src, gen string, infinite bool) {
+		var fullTrace any
+		polls := kmax
+		if !infinite {
+			full := emitV2(e, src, 3000, gen+"-full")
+			obs, _ := full["obs"].(map[string]any)
+			if obs == nil || (obs["outcome"] != "ok" && obs["outcome"] != "err") {
+				return
+			}
+			fullTrace = obs["trace"]
+			if n, ok := num(obs["polls"]); ok {
+				polls = int(n)
+			} else if f, ok := obs["polls"].(int); ok {
+				polls = f
+			}
+			if polls >= 3000 {
+				infinite, polls = true, kmax
+			}
+		}
+		if polls > kmax {
+			polls = kmax
+		}
+		for k := 1; k <= polls; k++ {
+			out := runV2(runCase{Scripts: []scriptSrc{{"main.p", src}}, Entry: "main.p", SigK: k, HasSig: true})
+			out["gen"], out["key"], out["strict"] = gen, fmt.Sprintf("v2 k=%d :: %s", k, src), true
+			out["c14"], out["kfire"] = true, k
+			if !infinite {
+				out["full_trace"], out["full_stdout"] = fullTrace, ""
+			}
+			if obs, ok := out["obs"].(map[string]any); ok {
+				e.stat(gen + ":" + fmt.Sprint(obs["outcome"]))
+			}
+			e.emit(out)
+		}
+	}
+	for _, src := range []string{"for ;; {}\n", "for ;; { for ;; {} }\n", "for ;; { p(1) }\n", "i = 0\nfor ;; { i = i + 1\n continue }\n",
+		"for ;; { for x in [1, 2] { } }\n", "for ;; { if true { } }\n"} {
+		v2AllK(src, "v2-endless", true)
+	}
+	for _, src := range []string{
+		"for i = 0; i < 6; p(\"loop\", i) { i = i + 1\n  if i > 1 {\n    continue\n  }\n  p(\"body\", i)\n}\n",
+		"for i = 0; i < 6; p(\"loop\", i) { i = i + 1\n  if i % 2 == 0 {\n    if true {\n      continue\n    }\n  }\n  p(\"body\", i)\n}\n",
+		"for i = 0; i < 4; i = i + 1 { for j = 0; j < 3; p(\"inner\", i, j) { j = j + 1\n    if j == 2 {\n      continue\n    }\n    p(j)\n  }\n}\n",
+		"for x in [1, 2, 3, 4] { if x == 2 {\n    continue\n  }\n  p(x)\n}\np(\"end\")\n",
+		"for i = 0; i < 5; p(\"loop\", i) { i = i + 1\n  if i == 3 {\n    break\n  }\n}\np(\"end\")\n",
+	} {
+		v2AllK(src, "v2-loops", false)
+	}
+	for i := 0; i < N; i++ {
+		g := newPG(rng)
+		g.allowBuilt = false
+		g.v2 = true
+		g.keys = []string{"s", "n", "x"}
+		g.maxDepth = 2
+		v2AllK(g.program(2+rng.Intn(3)), "v2-prog", false)
+	}
+	// hand-written loops whose loop clause has a visible effect, with continue/break in nested ifs
+	for _, src := range []string{
+		"for i = 0; i < 6; p(\"loop\", i) { i = i + 1\n  if i > 1 {\n    continue\n  }\n  p(\"body\", i)\n}\n",
+		"for i = 0; i < 6; p(\"loop\", i) { i = i + 1\n  if i % 2 == 0 {\n    if true {\n      continue\n    }\n  }\n  p(\"body\", i)\n}\n",
+		"for i = 0; i < 4; i = i + 1 { for j = 0; j < 3; p(\"inner\", i, j) { j = j + 1\n    if j == 2 {\n      continue\n    }\n    p(j)\n  }\n}\n",
+		"for i = 0; i < 5; p(\"loop\", i) { i = i + 1\n  if i == 3 {\n    break\n  }\n}\np(\"end\")\n",
+		"for i = 0; i < 3; i = i + 1 { use(\"b.p\")\n  p(\"after-use\", i) }\n",
+	} {
+		runAllK([]scriptSrc{{"a.p", src}, {"b.p", "for j = 0; j < 3; j = j + 1 { p(\"b\", j) }\n"}}, pt, "loops", src, false)
+	}
 	// terminating loop-bearing programs: all k up to the poll count of the uninterrupted run
 	for i := 0; i < N; i++ {
 		gb := newPG(rng)
